@@ -594,6 +594,73 @@ def validate_slot_traces(rep: Report):
     rep.count('slot_events_validated', sum(len(tr) for _, tr, _ in traces))
 
 
+def queue_race_probe(ctx, rep: Report):
+    """Forced timing around the worker's exit test: the producer's first put waits until a worker has looked at the
+    (still empty) queue, and that look takes long enough for the producer to queue everything and return.  A worker may
+    leave only when nothing is queued AND the producer is known to be done; every chunk must still be processed."""
+    import queue as _queue
+    import replicat.repository as R
+    from replicat.repository import Repository
+    from harness.memstore import MemBackend
+    for flavour in ('plain',):
+        wd = ctx.scratch / 'c09-queue-race'
+        (wd / 'src').mkdir(parents=True)
+        data = ctx.rng.randbytes(64 * 5)
+        (wd / 'src' / 'f').write_bytes(data)
+        seen_empty = threading.Event()
+
+        class RacyQueue(_queue.Queue):
+            def empty(self):
+                r = super().empty()
+                if r:
+                    seen_empty.set()
+                    time.sleep(0.3)          # the look at the empty queue lingers (the event loop thread is busy meanwhile)
+                return r
+
+            def put(self, item, block=True, timeout=None):
+                seen_empty.wait(5)           # the producer queues its chunks only after that look has started
+                return super().put(item, block, timeout)
+
+        class QueueModule:
+            Queue = RacyQueue
+            Empty, Full = _queue.Empty, _queue.Full
+
+            def __getattr__(self, name):
+                return getattr(_queue, name)
+
+        be = MemBackend()
+        out = {}
+
+        async def go():
+            r = Repository(be, concurrent=1, quiet=True, cache_directory=None)
+            await r.init(settings={'encryption': None, 'chunking': {'min_length': 64, 'max_length': 64}, 'hashing': {'name': 'blake2b', 'length': 16}})
+            saved = R.queue
+            R.queue = QueueModule()
+            try:
+                snap = await asyncio.wait_for(r.snapshot(paths=[wd / 'src']), 30)
+            finally:
+                R.queue = saved
+            out['refs'] = sum(c['range'][1] - c['range'][0] for f in snap.data['files'] for c in f['chunks'])
+            out['chunks'] = len([n for n in be.objects if n.startswith('data/')])
+            (wd / 'out').mkdir()
+            res = await r.restore(path=wd / 'out')
+            t = Path(wd / 'out', *Path(str((wd / 'src' / 'f').resolve())).parts[1:])
+            out['restored'] = t.is_file() and t.read_bytes() == data
+        try:
+            with contextlib.redirect_stdout(io.StringIO()), contextlib.redirect_stderr(io.StringIO()):
+                asyncio.run(go())
+        except Exception as e:
+            out['error'] = f'{type(e).__name__}: {str(e)[:100]}'
+        rep.case(('queue-race', flavour), nontrivial=True)
+        rep.count('queue_race_probe')
+        if out.get('error') or out.get('refs') != len(data) or not out.get('restored'):
+            rep.violations.append({'what': ('with the producer finishing while a worker looks at the empty queue, the snapshot '
+                                            f'references {out.get("refs")} of {len(data)} bytes ({out.get("chunks")} chunk objects), restored={out.get("restored")}, '
+                                            f'error={out.get("error")}'),
+                                   'signature': {'kind': 'chunks_dropped_at_producer_exit', 'flavour': flavour}, 'replay': {'probe': 'queue_race'}})
+        shutil.rmtree(wd, ignore_errors=True)
+
+
 def _run(ctx, n_random, n_forced, n_perm, rep):
     # forced finalisation race
     for k in range(n_forced):
@@ -618,6 +685,7 @@ def _run(ctx, n_random, n_forced, n_perm, rep):
         case = gen_case(ctx.rng)
         r = random.Random(case['order_seed'])
         check(case, ctx, rep, lambda r=r: (lambda n: r.randrange(n)), f'rnd{i}')
+    queue_race_probe(ctx, rep)
     validate_slot_traces(rep)
 
 
